@@ -1654,6 +1654,26 @@ def unsafe_cell_new(ex, args, callee):
     return Native('UnsafeCell', c, fresh_id())
 
 
+@stub('<UnsafeCell as Default>::default')
+def unsafe_cell_default(ex, args, callee):
+    m = re.match(r'^<(?:std::cell::|core::cell::)?UnsafeCell<(.*)> as (?:std::default::|core::default::)?Default>::default$', callee.strip())
+    inner = m.group(1).strip() if m else ''
+    if not re.match(r'^(std::option::|core::option::)?Option<', inner):
+        raise Unsupported('UnsafeCell<%s>::default' % inner)
+    c = Cell(NONE, 'unsafe-cell')
+    c.tracked = True
+    return Native('UnsafeCell', c, fresh_id())
+
+
+@stub('<Atomic as Default>::default', '<AtomicUsize as Default>::default')
+def atomic_default(ex, args, callee):
+    if 'Bool' in callee:
+        return new_atomic(FALSE, callee)
+    m = re.search(r'Atomic(U|I)(size|8|16|32|64)', callee)
+    ty = ('u' if m.group(1) == 'U' else 'i') + m.group(2) if m else 'usize'
+    return new_atomic(mk_int(0, ty), callee)
+
+
 @stub('UnsafeCell::get')
 def unsafe_cell_get(ex, args, callee):
     u = ex.deref_all(args[0])
